@@ -10,7 +10,7 @@ func init() {
 			"claim resets exactly the claimed position (or deletes it when it holds no shares) and truncates only via TruncateDecimal; the set of functions writing position and accumulator records.",
 		NotCovered:  []string{"claim = Σ growth × shares over a history as a number", "total shares = Σ position shares as an invariant over histories"},
 		Assumptions: []string{"osmoutils.MustSet/Get and the KV store are the effect primitives"},
-		MinObl:      58,
+		MinObl:      65,
 		Run:         runC15,
 	})
 }
@@ -87,6 +87,7 @@ func runC15(c *rules.Ctx) {
 	c.HasCall(A+"AddToUnclaimedRewards", "accum.initOrUpdatePosition", []string{"accum", "{POSN}.AccumValuePerShare", "positionName", "{POSN}.NumShares", "sdk.DecCoins.Add({POSN}.UnclaimedRewardsTotal, rewardsToAddTotal)", "{POSN}.Options"}, true, "only the unclaimed rewards grow, by the given amount", "")
 	c.CheckedCall(A+"AddToUnclaimedRewards", "accum.GetPosition", []string{"accum", "positionName"}, "unknown positions fail", "")
 
+	clScalingMigrationRules(c)
 	// ClaimRewards
 	const CL = A + "ClaimRewards"
 	c.CheckedCall(CL, "accum.GetPosition", []string{"accum", "positionName"}, "unknown positions fail before any write", "")
